@@ -18,10 +18,12 @@ def main() -> int:
     # (forcing -DBP_BIG_ENDIAN on the little-endian host is NOT a valid configuration for the runtime library as a
     # whole: its own 16-bit prefixes and sign handling use native integers; it is used only to replay / validate
     # unsigned, prefix-free messages natively, see cenc._native)
-    std_cfgs = [Cfg("O0", "s390x", False), Cfg("O2", "s390x", False), Cfg("O2", "s390x", True)]
+    std_cfgs = [Cfg("O0", "s390x", False), Cfg("O2", "s390x", False), Cfg("O2", "s390x", True), Cfg("O2", "ppc64", False), Cfg("O1", "mips64", False)]  # thorough: two more big-endian data layouts
     if q:
         std_cfgs = [Cfg("O2", "s390x", False), Cfg("O0", "s390x", True)]
     op_cfgs = [Cfg("O2", "s390x", False, (), True, "both"), Cfg("O2", "x86_64", False, ("BP_BIG_ENDIAN",), True, "both", False), Cfg("O2", "s390x", False, (), True, "big")]
+    if not q:
+        op_cfgs += [Cfg("O2", "ppc64", False, (), True, "both"), Cfg("O0", "mips64", False, (), True, "big")]
     gsel = grid[::3] if q else grid
     jobs_rt = [(c, [cfg], ("encode", "decode")) for c in shape + gsel for cfg in (std_cfgs if "large" not in c.tags else std_cfgs[:1])]
     jobs_op = [(c, [cfg], ("encode", "decode")) for c in trad + gsel[::2] for cfg in (op_cfgs if "large" not in c.tags else op_cfgs[:1])]
@@ -29,7 +31,7 @@ def main() -> int:
         "functions_encoded": cenc.C_FILES,
         "configurations": [c.name() for c in std_cfgs + op_cfgs],
         "bounds": "runtime library lowered by clang 14 for s390x-linux-gnu (datalayout E-..., __BYTE_ORDER__ auto-detection fires); struct storage holds every field in big-endian byte order; the same specified (little-endian) wire bytes are the oracle; (width x offset x storage size) grid for base types and array elements from F_grid" + (" (slice)" if q else " (complete)") + ", F_shape for the rest; -O0 and -O2; -O output: big-endian branch on s390x and forced on x86-64",
-        "outside_claim": "other big-endian ABIs (only clang's s390x data layout); the s390x IR cannot be run natively here: it rests on the interpreter that is validated natively on x86-64 (incl. the forced -DBP_BIG_ENDIAN build on hand-laid big-endian storage)",
+        "outside_claim": "other big-endian ABIs (clang's s390x data layout; thorough adds powerpc64 and mips64); the s390x IR cannot be run natively here: it rests on the interpreter that is validated natively on x86-64 (incl. the forced -DBP_BIG_ENDIAN build on hand-laid big-endian storage)",
         "explanation": "obligations are those of C03/C04 with the same specified bytes: exercises the auto-detection macros, BpBaseTypeStorageSize, the staging-buffer reversal, the disabled fast paths, the per-element array loop and the 16-bit prefixes",
     }
     return run_parts(PROP, "translation_validation", [("be-runtime", cenc.work, jobs_rt), ("be-optimization-mode", cenc.work, jobs_op)], meta, ["z3 decides QF_BV", "IR interpreter core validated on x86-64"])
